@@ -70,29 +70,40 @@ def dense_fc(scell, rng, asr=True, perm_sym=True, space_group=True):
 
 
 def springs_fc(scell, rc=None, kl=5.0, kt=0.5):
-    """Central + transverse pair springs with positive constants: stable spectrum."""
-    L = scell.cell
-    pos = scell.scaled_positions
+    """Central + transverse pair springs with positive constants between ALL pairs of atoms (periodic images
+    included) closer than rc: a stable, exactly periodic model carrying the full symmetry of the crystal.
+    The image window is proven (|n_i| <= (rc + diameter) |column_i(L^-1)|), not a fixed 27-cell guess."""
+    from oracles.lattice import coeff_bounds
+
+    L = np.array(scell.cell, dtype=float)
+    pos = scell.scaled_positions - np.floor(scell.scaled_positions)
     n = len(pos)
-    shifts = np.array(list(itertools.product((-1, 0, 1), repeat=3)))
     if rc is None:
-        vs = [L[0], L[1], L[2], L[0] + L[1], L[0] - L[1], L[1] + L[2], L[1] - L[2], L[0] + L[2], L[0] - L[2],
-              L[0] + L[1] + L[2], L[0] + L[1] - L[2], L[0] - L[1] + L[2], -L[0] + L[1] + L[2]]
-        tmin = min(np.linalg.norm(v) for v in vs)
-        # nearest-neighbour distance over all pairs and images, so that every atom has at least one spring
-        dall = (pos[None, None, :, :] - pos[None, :, None, :] + shifts[:, None, None, :]) @ L
-        rall = np.linalg.norm(dall, axis=3)
-        off = ~np.eye(n, dtype=bool)[None, :, :] if n > 1 else np.ones((1, 1, 1), dtype=bool)
-        cand = rall[(rall > 1e-6) & off]
-        dnn = cand.min()
+        from oracles.lattice import shortest_lattice_vector
+
+        tmin = shortest_lattice_vector(L)
+        dnn = np.inf
+        if n > 1:
+            b0 = coeff_bounds(L, tmin)
+            sh0 = np.array(list(itertools.product(*[range(-b - 1, b + 2) for b in b0])))
+            for i in range(n):
+                d = (pos[None, :, :] - pos[i][None, None, :] + sh0[:, None, :]) @ L
+                r = np.linalg.norm(d, axis=2)
+                r[:, i] = np.inf
+                dnn = min(dnn, r.min())
+        else:
+            dnn = tmin
         rc = max(0.45 * tmin, 1.3 * dnn)
+    diam = np.linalg.norm(L, axis=1).sum()
+    bb = coeff_bounds(L, rc + diam)
+    shifts = np.array(list(itertools.product(*[range(-b, b + 1) for b in bb])))
     fc = np.zeros((n, n, 3, 3))
     for i in range(n):
-        d = (pos[None, :, :] - pos[i][None, None, :] + shifts[:, None, :]) @ L  # (27, n, 3)
+        d = (pos[None, :, :] - pos[i][None, None, :] + shifts[:, None, :]) @ L
         r = np.linalg.norm(d, axis=2)
-        for s, j in zip(*np.nonzero((r > 1e-6) & (r < rc))):
-            e = d[s, j] / r[s, j]
-            K = kl / r[s, j] ** 2 * np.outer(e, e) + kt / r[s, j] ** 2 * (np.eye(3) - np.outer(e, e))
+        for s_, j in zip(*np.nonzero((r > 1e-6) & (r < rc))):
+            e = d[s_, j] / r[s_, j]
+            K = kl / r[s_, j] ** 2 * np.outer(e, e) + kt / r[s_, j] ** 2 * (np.eye(3) - np.outer(e, e))
             fc[i, j] -= K
             fc[i, i] += K
     return fc
